@@ -658,8 +658,8 @@ func createConnHandler(
 			if err != nil {
 				return err
 			}
-			if err := clientStream.SendMsg(args); err != nil {
-				return err
+			if err := clientStream.SendMsg(args); err != nil && err != io.EOF {
+				return err // io.EOF: the stream is done, RecvMsg returns its status
 			}
 
 			var inErr error
